@@ -161,7 +161,10 @@ class I3EnergyPDF(
         # is a 2D array of the same shape as h.
         norms = np.sum(h, axis=(0,))[np.newaxis, ...] *\
             np.diff(log10_energy_binning.binedges)[..., np.newaxis]
-        h /= norms
+        # A sin(dec) band without any physics contribution has a zero norm. The
+        # probability density of such a band is zero for all energies (and not
+        # 0/0 = nan).
+        h = np.divide(h, norms, out=np.zeros_like(h), where=(norms != 0))
         h = self._hist_smoothing_method.smooth(h)
 
         self._hist_log10_energy_sin_dec = h
